@@ -91,7 +91,7 @@ class Game(AsyncMode):
             await self._run_ball()
 
             # run any extra balls
-            while self.player.extra_balls and not self.slam_tilted:
+            while self.player.extra_balls and not self.slam_tilted and not self.ending:
                 await self._award_extra_ball()
 
             await self._end_player_turn()
